@@ -64,6 +64,9 @@ class PiConfig(SSEConfig):
                                      "ske"],
                                     config_dict)
 
+        # K_w0 = F(K, w)[:param_k] keys the labels of keyword w: it must not be empty
+        SSEConfig.check_param_positive_int(["param_k"], config_dict)
+
         self.param_k = config_dict.get("param_k")
         self.param_k_prime = config_dict.get("param_k_prime")
         self.param_l = config_dict.get("param_l")
